@@ -183,7 +183,7 @@ func (it *item) body(ctx context.Context) error {
 			// Not instant: a task function that returns before the queue handler's watcher goroutine has read
 			// t.ctx makes the queue wait maxExecutionWait (1 min) for the next task (tasks.go "RACE CONDITION"
 			// comment; subject of C07, not of this property).
-			time.Sleep(3 * time.Millisecond)
+			time.Sleep(10 * time.Millisecond)
 		}
 		runtime.Gosched()
 		return o.apply()
@@ -566,6 +566,7 @@ func (c *child) do(line string) string {
 			}
 		}
 		err := modules.Start()
+		c.waitCtrlIdle()
 		c.startOK = err == nil
 		if err != nil {
 			// Start returns on the first failing report while other routines may still be running
@@ -602,6 +603,7 @@ func (c *child) do(line string) string {
 			return "bad-op"
 		}
 		err := modules.ManageModules()
+		c.waitCtrlIdle()
 		return fmt.Sprintf("manage ret=%s reps=%s st=%s", ctrlRetStr(err), c.drain(), c.statuses())
 
 	case "shutdown":
@@ -786,6 +788,16 @@ var kinds = map[string]bool{"runworker": true, "startworker": true, "svc": true,
 
 func knownKind(k string) bool { return kinds[k] }
 
+// waitCtrlIdle: Start/ManageModules return as soon as the routine's result has arrived, which is before the
+// routine's goroutine has run its deferred ctrlFuncRunning.UnSet(); wait for that (bounded) so that the
+// next reading is not taken in between.
+func (c *child) waitCtrlIdle() {
+	waitUntil(settleTimeout, func() bool {
+		st := modules.GetStatus()
+		return st == nil || st.Total.CtrlFuncRunning == 0
+	})
+}
+
 func (c *child) awaitEntry(it *item) string {
 	select {
 	case <-it.entered:
@@ -855,7 +867,9 @@ func (c *child) launch(it *item) bool {
 		if !needM() {
 			return false
 		}
-		it.task = m.NewTask(name, func(ctx context.Context, _ *modules.Task) error { return it.body(ctx) })
+		// MaxDelay far away: should the queue stall (see body), a queued task must not additionally be started
+		// by the scheduler's max-delay path — what then happens is C07's subject, not this property's.
+		it.task = m.NewTask(name, func(ctx context.Context, _ *modules.Task) error { return it.body(ctx) }).MaxDelay(time.Hour)
 		queueTask(it.task, it.kind)
 	case "mt-run-high":
 		if !needM() {
@@ -985,6 +999,9 @@ func blocking(kind string) bool {
 func (c *child) finish(it *item) string {
 	before := c.counters()
 	it.held = false
+	if it.task != nil {
+		time.Sleep(2 * time.Millisecond) // give the queue handler's watcher goroutine time to read t.ctx (see body)
+	}
 	it.release <- struct{}{}
 	ret, httpS, next, exec := "-", "-", "-", "-"
 	it.mu.Lock()
